@@ -14,7 +14,7 @@ vars == <<l, failed>>
 
 Scen(e) == [mode |-> e.sc.mode, out |-> e.sc.out, quit |-> e.sc.quit, status |-> e.sc.status,
             src |-> {x \in {"config", "delta", "bat", "pager"} : e.sc.src[x]}, pagerval |-> e.sc.pagerval,
-            stay |-> e.sc.stay, big |-> e.sc.big, how |-> e.sc.how]
+            stay |-> e.sc.stay, big |-> e.sc.big, how |-> e.sc.how, bare |-> e.sc.bare]
 
 Why(e) ==
   LET sc == Scen(e) IN
